@@ -856,3 +856,23 @@ Proof.
   split; [reflexivity|]. split; [reflexivity|]. split; [vm_compute; reflexivity|].
   vm_compute. discriminate.
 Qed.
+
+(* ---------------------------------------------------------------- a real tree for the examples *)
+(* the parso tree of "def f(a):\r\n\tx = a + \\\r\n  1\r\x0c\xe9 = '''s\nt'''\ny = f" *)
+Definition ex_tree : tree :=
+  Node [Node [Leaf (L KOther (@nil N) [100;101;102] 1 0); Leaf (L (KName true true) [32] [102] 1 4);
+    Node [Leaf (L KOther (@nil N) [40] 1 5); Node [Leaf (L (KName true false) (@nil N) [97] 1 6)];
+          Leaf (L KOther (@nil N) [41] 1 7)];
+    Leaf (L KOther (@nil N) [58] 1 8);
+    Node [Leaf (L KNewline (@nil N) [13;10] 1 9);
+      Node [Node [Leaf (L (KName true false) [9] [120] 2 1); Leaf (L KOther [32] [61] 2 3);
+                  Node [Leaf (L (KName false false) [32] [97] 2 5); Leaf (L KOther [32] [43] 2 7);
+                        Leaf (L KOther [32;92;13;10;32;32] [49] 3 2)]];
+            Leaf (L KNewline (@nil N) [13] 3 3)];
+      Node [Node [Leaf (L (KName true false) [12] [233] 4 1); Leaf (L KOther [32] [61] 4 3);
+                  Leaf (L KOther [32] [39;39;39;115;10;116;39;39;39] 4 5)];
+            Leaf (L KNewline (@nil N) [10] 5 4)]]];
+   Node [Leaf (L (KName true true) (@nil N) [121] 6 0); Leaf (L KOther [32] [61] 6 2);
+         Leaf (L (KName false true) [32] [102] 6 4)];
+   Leaf (L KOther (@nil N) (@nil N) 6 5)].
+
